@@ -42,7 +42,9 @@ def run(rep, tier, rng):
     rel = sfv.build_harness("release")
     rep.cov["rule"] = ("table cases: every code in [-70000,70000], all single-bit and boundary values, random 32-bit values "
                        "(model vs implementation, dev profile); exhaustive sweep of ShapeType::from over all 2^32 codes in the "
-                       "release build, every code that decodes compared with the model's table and the ESRI table; "
+                       "release build, every code that decodes compared with the model's table and the ESRI table; files whose header "
+                       "type or record type is an ESRI code, a near miss or a random value (record with nothing but its type code, "
+                       "and with 16 more bytes) read by the generic reader; "
                        "non-trivial = distinct case")
     # 1. exhaustive sweep over all 2^32 codes (release build, 16 processes)
     lo, hi = -(1 << 31), (1 << 31) - 1
@@ -87,6 +89,48 @@ def run(rep, tier, rng):
     # 3. rows found by the exhaustive sweep, against the model
     stages.correspondence(rep, "sweep", dev, sweep_cases, "table(sweep rows)", impl_out=sweep_rows,
                           oracle=lambda c, r: oracle_row(c[1], r))
+    # 4. the code as read from files: in the file header and as the type of a record (a record holding nothing but
+    # its type code, and one with 16 more bytes), generic reader
+    import struct
+    import cases as C
+    import refesri
+    fcodes = sorted(set(ESRI) | {2, 4, 6, 7, 9, 10, 12, 14, 16, 17, 19, 20, 22, 24, 26, 27, 29, 30, 32, 33, 99, 255, 256, 261, -1, -31,
+                                 lo, hi, 1 << 24, 1 << 16, 5 << 8, (31 << 24)} | set(rng.randint(lo, hi) for _ in range(60)))
+    fcases, fmeta = [], []
+    for code in fcodes:
+        for extra in (b"", bytes(16)):
+            body = struct.pack("<i", code) + extra
+            rec = struct.pack(">ii", 1, len(body) // 2) + body
+            for htype in (0, code):
+                hdr = bytearray(refesri.encode_header(0, [0] * 8, (100 + len(rec)) // 2))
+                hdr[32:36] = struct.pack("<i", htype)
+                fcases.append(C.read_case(-1, bytes(hdr) + rec, None, [("it", -1)]))
+                fmeta.append((code, htype, len(extra)))
+
+    def oracle_file(c, r, m):
+        code, htype, extra = m
+        rd = C.parse_read(r, [("it", -1)])
+        if rd.get("panic"):
+            return "panic reading a record of type code %d" % code
+        if htype not in ESRI:
+            return None if rd.get("open_err") == [6, htype] else "header with type code %d was not refused with InvalidShapeType(%d): %r" % (htype, htype, rd)
+        if "open_err" in rd:
+            return "header with ESRI type code %d was refused" % htype
+        items = rd["ops"][0]["items"]
+        if code not in ESRI:
+            if not items or tuple(items[0]) != ("err", 6, code):
+                return "a record whose type code %d is not an ESRI code was answered %r instead of InvalidShapeType(%d)" % (
+                    code, items[:1], code)
+        elif code == 0 and (not items or items[0][0] != "ok"):
+            return "a null-shape record was not read"
+        return None
+
+    fimpl = stages.correspondence(rep, "files", dev, fcases, "read(type code in header and record)")
+    for c, r, m in zip(fcases, fimpl, fmeta):
+        msg = oracle_file(c, r, m)
+        if msg:
+            rep.violation({"kind": "oracle", "what": msg, "case_kind": "read", "case": c})
+            break
     rep.cov["distribution"] = {"codes_in_table_cases": len(cases), "valid_codes_found_by_sweep": len(valid)}
     rep.assumptions += ["ShapeType::from is a pure function of its i32 argument",
-                        "Header::read_from on every code: covered by the reader cases of C07/C03"]
+                        "Header::read_from and the record type on ESRI codes, boundary and random values: stage 4 (not exhaustive)"]
